@@ -2044,6 +2044,35 @@ fn analyze_structural(
 					};
 					typer.contextual_type = contextual_type;
 					let expression = member.expression.analyze(typer);
+					let name = match name
+					{
+						Ok(name) =>
+						{
+							match typer.put_symbol(&name, expression.value_type())
+							{
+								Ok(()) => Ok(name),
+								Err(Error::ConflictingTypes {
+									name,
+									current_type,
+									previous_type,
+									location: _,
+									previous,
+								}) =>
+								{
+									let error = Error::ConflictingTypesInAssignment {
+										name,
+										current_type,
+										previous_type,
+										location: expression.location().clone(),
+										previous,
+									};
+									Err(Poison::Error(error))
+								}
+								Err(error) => Err(Poison::Error(error)),
+							}
+						}
+						Err(poison) => Err(poison),
+					};
 					MemberExpression {
 						name,
 						offset,
